@@ -795,6 +795,38 @@ fn dump<'tcx>(tcx: TyCtxt<'tcx>) {
                         }
                     }
                 }
+                // small integer arrays (lookup tables): element values, so that rules can propagate constants through an index
+                if matches!(tcx.def_kind(did), DefKind::Const { .. }) {
+                    if let ty::Array(elem, _) = t.kind() {
+                        let esz: usize = match elem.kind() {
+                            ty::Uint(ty::UintTy::U8) | ty::Int(ty::IntTy::I8) => 1,
+                            ty::Uint(ty::UintTy::U16) | ty::Int(ty::IntTy::I16) => 2,
+                            ty::Uint(ty::UintTy::U32) | ty::Int(ty::IntTy::I32) => 4,
+                            ty::Uint(ty::UintTy::U64) | ty::Int(ty::IntTy::I64) | ty::Uint(ty::UintTy::Usize) => 8,
+                            _ => 0,
+                        };
+                        if esz > 0 {
+                            if let Ok(rustc_middle::mir::ConstValue::Indirect { alloc_id, offset }) = tcx.const_eval_poly(did.to_def_id()) {
+                                if let rustc_middle::mir::interpret::GlobalAlloc::Memory(ca) = tcx.global_alloc(alloc_id) {
+                                    let a = ca.inner();
+                                    let start = offset.bytes() as usize;
+                                    if a.len() >= start && a.len() - start <= 4096 {
+                                        let bytes = a.inspect_with_uninit_and_ptr_outside_interpreter(start..a.len());
+                                        let mut arr: Vec<V> = Vec::new();
+                                        for ch in bytes.chunks(esz) {
+                                            let mut v: i128 = 0;
+                                            for (i, b) in ch.iter().enumerate() {
+                                                v |= (*b as i128) << (8 * i);
+                                            }
+                                            arr.push(V::I(v));
+                                        }
+                                        o.push(("arr", V::A(arr)));
+                                    }
+                                }
+                            }
+                        }
+                    }
+                }
                 consts.push(V::O(o));
             }
             _ => {}
